@@ -461,6 +461,13 @@ def run(tier, seed):
             [('Int16ub', 'build', '70000'), ('Int16ub', 'build', '7')], [('VarInt', 'build', '-1'), ('VarInt', 'build', '300')],
             [('ProcessXor(b"\\x01\\x02\\x04", GreedyBytes)', 'build', 'b"abcd"'), ('ProcessXor(b"\\x01\\x02\\x04", GreedyBytes)', 'build', 'b"abcd"')],
             [('Enum(Byte, a=1)', 'build', '"zz"'), ('Enum(Byte, a=1, zz=2)', 'build', '"zz"')],
+            [('ProcessRotateLeft(4, 2, Bytes(4))', 'build', 'b"abcd"'), ('ProcessRotateLeft(4, 4, Bytes(4))', 'build', 'b"abcd"')],
+            [('ProcessRotateLeft(4, 4, Bytes(4))', 'parse', '61626364'), ('ProcessRotateLeft(4, 2, Bytes(4))', 'parse', '61626364')],
+            [('ProcessRotateLeft(12, 4, GreedyBytes)', 'build', 'b"abcdefgh"'), ('ProcessRotateLeft(12, 2, GreedyBytes)', 'build', 'b"abcdefgh"'), ('ProcessRotateLeft(12, 8, GreedyBytes)', 'build', 'b"abcdefgh"')],
+            [('ProcessRotateLeft(3, 1, GreedyBytes)', 'build', 'b"abc"'), ('ProcessRotateLeft(3, 3, GreedyBytes)', 'build', 'b"abc"'), ('ProcessRotateLeft(-5, 3, GreedyBytes)', 'parse', '616263')],
+            [('ProcessXor(b"\\x01\\x02", GreedyBytes)', 'build', 'b"abc"'), ('ProcessXor(b"\\x01\\x02\\x03", GreedyBytes)', 'build', 'b"abc"'), ('ProcessXor(1, GreedyBytes)', 'build', 'b"abc"')],
+            [('Bitwise(Bytes(8))', 'parse', '81'), ('Bitwise(Bytes(16))', 'parse', '8101'), ('BitsSwapped(Bytes(1))', 'parse', '81'), ('ByteSwapped(Bytes(2))', 'parse', '8101')],
+            [('PaddedString(4, "utf_16_le")', 'build', '"a"'), ('PaddedString(4, "utf8")', 'build', '"a"'), ('CString("utf_32_le")', 'build', '"a"'), ('CString("utf8")', 'build', '"a"')],
             [('PaddedString(4, "utf8")', 'parse', 'ff000000'), ('PaddedString(4, "utf8")', 'parse', '61000000')],
             [('Struct("n"/Byte, "d"/Bytes(this.n))', 'parse', '05'), ('Struct("n"/Byte, "d"/Bytes(this.n))', 'parse', '026162')]]:
         acc.check('fresh_process', calls[-1][0], calls=[list(c) for c in calls])
